@@ -162,7 +162,13 @@ class Gen:
                     wa = ["cmp", "1" if a.type == "J" else "0"] + wx + wy
             else:
                 a, wa = sub(rng.choice(("num", "ref", "bool")))
-            t = str(a.get_type())
+            try:
+                t = str(a.get_type())
+            except Exception:  # noqa   (e.g. an array load from an untyped expression: the Writer would fail the same way)
+                a, wa = self.leaf("num")
+                if wa[0] == "gets":
+                    wa = ["gets", wa[1], a.name]
+                t = str(a.get_type())
             kind = "bool" if t == "Z" else ("num" if t in "VBSCIJFD" else "ref")
             p = self.ph()
             e = ir.ConditionalZExpression(op, p)
@@ -350,7 +356,7 @@ def expected(ir, e):
     """expected_tree, or None where the property defines no Java expression (float compare as a value, `<init>` on a variable)"""
     try:
         return expected_tree(ir, e)
-    except NoTree:
+    except Exception:  # noqa   NoTree, or an IR object whose own get_type() fails
         return None
 
 
